@@ -45,8 +45,11 @@ def builtin_or_template(motif):
 
     as_list = motif.get("etype") == "list"
 
+    drop_loops = bool(motif.get("drop_loops"))
+
     def template(vs):
-        es = [[vs[i], vs[j]] if as_list else (vs[i], vs[j]) for i, j in edges]
+        es = [[vs[i], vs[j]] if as_list else (vs[i], vs[j]) for i, j in edges
+              if not (drop_loops and vs[i] == vs[j])]
         if ret == "bare":
             return es[0]
         if ret == "tuple":
@@ -57,7 +60,8 @@ def builtin_or_template(motif):
 
 def expected_rows(motif, vs):
     """edge rows this motif instance must contribute, as [(u,v)], oracle side."""
-    return [(vs[i], vs[j]) for i, j in template_edges(motif)]
+    return [(vs[i], vs[j]) for i, j in template_edges(motif)
+            if not (motif.get("drop_loops") and vs[i] == vs[j])]
 
 
 def expected_names(motif):
@@ -131,6 +135,9 @@ def gcm_case(draw, tier, algos=("fast", "network", "motifs"), max_leaf_stubs=Non
                 mo["names"] = [f"m{j}"] * ne
         else:
             mo["names"] = draw(st.sampled_from([f"t{j}", f"t{j}", NAME_POOL[j % len(NAME_POOL)] + f"#{j}"]))
+            if mo["kind"] == "template" and draw(st.integers(0, 3)) == 3:
+                # a callback that omits degenerate (u,u) edges: its edge count varies from instance to instance
+                mo["drop_loops"] = True
         cap = max(0, (10 if not big else 24) // max(1, m))
         if max_leaf_stubs is not None:
             cap = max(0, max_leaf_stubs // max(1, max(sizes)))
@@ -272,6 +279,8 @@ def classes_of(case):
             cl.add("zero_edge_motif")
         if m.get("etype") == "list":
             cl.add("edges_as_lists")
+        if m.get("drop_loops"):
+            cl.add("variable_edge_count_callback")
         if not isinstance(m["names"], str) and len(set(m["names"])) > 1:
             cl.add("heterogeneous_names")
     return cl
